@@ -1146,7 +1146,6 @@ fc_statements = [
         buf_args=["arg_decl"],
         c_arg_decl=[
             # Argument is a pointer while std::string is a scalar.
-            # C++ compiler will convert to std::string when calling function.
             "char *{c_var}",
         ],
         f_arg_decl=[
@@ -1154,6 +1153,12 @@ fc_statements = [
             "character(kind=C_CHAR), intent(IN) :: {c_var}(*)",
         ],
         f_module=dict(iso_c_binding=["C_CHAR"]),
+        # Pass a std::string: a char pointer would select an overload
+        # which takes a pointer or a bool.
+        cxx_local_var="scalar",
+        pre_call=[
+            "std::string {cxx_var}({c_var});",
+        ],
     ),
     dict(
         name="c_string_scalar_in_buf",
